@@ -18,4 +18,8 @@ theorem ipv6cp_dispatch : GoodDispatch FsmIpv6cp.tables = true := by decide +ker
 /-- timeout() re-arms the timer only together with a decrement of the restart counter, never when it is ≤ 0 -/
 theorem ipv6cp_to : GoodTO FsmIpv6cp.tables = true := by decide +kernel
 
+/-- timeout() has no statement before its switch, and whenever it ends in Closing, Stopping, Req-Sent, Ack-Rcvd or
+    Ack-Sent it has re-armed the restart timer -/
+theorem ipv6cp_wait : GoodWait FsmIpv6cp.tables = true := by decide +kernel
+
 end Bng.Proof.NcpTables
